@@ -9,6 +9,7 @@ classes, activated through their real activate() against env.air (IniClf.sense
 and ListenStub), then coupled through Air with one symbolic fault decision per
 frame.  Initiator stack and target stack alternate strictly (env.air).
 """
+import struct
 import nfc.clf
 import nfc.dep
 from env.air import Air, IniClf, TgtClf, FAULT_NAMES, FrameStorm
@@ -115,6 +116,9 @@ def conversation(sx, tech, brs, lri, lrt, did, nad, shapes, faults,
             except nfc.clf.CommunicationError as e:
                 T['end'] = type(e).__name__
                 return
+            except struct.error:
+                T['end'] = "frame-length-overflow"
+                return
             if data is None:
                 T['end'] = "None"
                 return
@@ -139,6 +143,9 @@ def conversation(sx, tech, brs, lri, lrt, did, nad, shapes, faults,
                 I['recv'].append(ini.exchange(A[k], ex_timeout))
             except nfc.clf.CommunicationError as e:
                 I['end'] = type(e).__name__
+                break
+            except struct.error:
+                I['end'] = "frame-length-overflow"
                 break
             except FrameStorm:
                 sx.check(False, "endless-exchange:initiator")
@@ -165,6 +172,11 @@ def conversation(sx, tech, brs, lri, lrt, did, nad, shapes, faults,
             sx.reach("fault:%s:%s" % (describe(f).split(":")[0], FAULT_NAMES[f.fault]))
 
     # ---- the air interface
+    tag = (":did" if did is not None else "") + (":nad" if nad is not None else "")
+    if T['end'] == "frame-length-overflow":
+        sx.check(False, "frame-length-overflow:target" + tag)
+    if I['end'] == "frame-length-overflow":
+        sx.check(False, "frame-length-overflow:initiator" + tag)
     check_frames(sx, air, lri, lrt, (":did" if did is not None else "") +
                  (":nad" if nad is not None else ""))
     sx.check(air.unsolicited == 0, "target-transmits-without-request:" + cls)
@@ -279,8 +291,11 @@ def partitions(tier):
     if quick:
         conv("three:106A:f1", [[ONE + M1, M1 + ONE, M + M]], 1)
     else:
-        conv("two:106A:1:f3", [two[1]], 3)
-        conv("two:212F:0:f3", [two[0]], 3, tech='212F')
+        for i, s in enumerate(two):
+            conv("two:%s:%d:f3" % (('106A', '212F')[i & 1], i), [s], 3,
+                 tech=('106A', '212F')[i & 1])
+        conv("one:106A:0.0:f4", [[ONE + ONE]], 4)
+        conv("one:212F:3.3:f4", [[M1 + M1]], 4, tech='212F')
         conv("three:106A:f2", [[ONE + M1, M1 + ONE, M + M]], 2)
         conv("three:212F:f2", [[M1 + ONE, ONE + ONE, ONE + M1]], 2, tech='212F')
         conv("four:106A:f2", [[ONE + ONE, M1 + ONE, ONE + M1, M + M]], 2)
@@ -305,6 +320,7 @@ def partitions(tier):
     # ---- DID and NAD in use
     conv("did:106A:f1", [[ONE + ONE], [M + M], [M1 + M2]], 1, did=1)
     conv("nad:106A:f1", [[ONE + ONE], [M + M], [M1 + M1]], 1, nad=2)
+    conv("did:lr254:106A:f1", [[M + M2], [M1 + M1]], 1, did=1, lri=3, lrt=3)
     if not quick:
         conv("did:212F:f2", [[ONE + ONE], [M + M], [M1 + M2]], 2, did=7, tech='212F')
         conv("nad:212F:f2", [[M + M], [M1 + M1], [MM1 + ONE]], 2, nad=9, tech='212F')
@@ -347,7 +363,8 @@ BOUNDS = {
     "0 and 8; one variant with a 77.5 ms deadline (RWT 77.33 ms)",
     "thorough": "as quick with <= 3 faults for all 36 length pairs "
     "{1, miu-1, miu, miu+1, 2miu, 2miu+1}^2 of one exchange in both framings, "
-    "2..4 exchanges with <= 2 faults (<= 3 for two of them), all 15 other "
+    "2..4 exchanges with <= 2 faults (<= 3 for five of them, <= 4 for two "
+    "single exchanges), all 15 other "
     "LR pairs with 4 length shapes and <= 2 faults, PSL with <= 2 faults, "
     "DID/NAD/DID+NAD also at 212F with <= 2 faults, RWT code 14",
 }
